@@ -41,6 +41,39 @@ def run(n: int, d: int) -> int:
 \t\treturn len(ys) + d + i + n
 \treturn inner(1) + Counter(n).bump(d)
 """, ['Counter', '_step', '__seen', 'limit', '_own', 'bump', 'run', 'xs', 'inner', 'ys', 'idx', 'n', 'd', 'i', 'b']),
+    ("""class Item:
+\tn: int
+\ttotal: int
+
+\tdef __init__(self, n: int) -> None:
+\t\tself.n = n
+\t\tself.total = n * 2
+
+\tdef bump(self, d: int) -> int:
+\t\treturn self.n + self.total + d
+
+class Shape:
+\tsides: int
+
+\tdef __init__(self, sides: int) -> None:
+\t\tself.sides = sides
+
+\tdef area(self) -> int:
+\t\treturn self.sides
+
+class Square(Shape):
+\tdef corners(self) -> int:
+\t\treturn self.sides + 4
+
+def build(n: int) -> Item:
+\treturn Item(n)
+
+def use(n: int) -> int:
+\tv = build(n)
+\tw: Item = build(n + 1)
+\tq = Square(4)
+\treturn v.bump(1) + w.total + q.area() + q.corners()
+""", ['Item', 'n', 'total', 'bump', 'Shape', 'sides', 'area', 'Square', 'corners', 'build', 'use', 'v', 'w', 'q', 'd']),
 ]
 
 
@@ -50,8 +83,12 @@ def directed_renamings(src, names):
     for n in names:
         lead = n[:len(n) - len(n.lstrip('_'))]
         base = n[len(lead):]
-        for new in [base + '2', base + '_v1', 'x' + base, base + base, base[:1] + '9'] + letters[::2]:
+        others = [m for m in names if m != n and not m.startswith('_')]
+        related = [m + '_build' for m in others[:2]] + [m + 'ize' for m in others[2:3]] + [m[:2] for m in others if len(m) > 3][:2]      # another identifier as a proper prefix, or a prefix of another
+        for new in [base + '2', 'x' + base, base[:1] + '9', base + '_', base + '__', base + 'Enum', base + 'Generic'] + related + letters[::3][:4]:
             new = lead + new
+            if lead == '__' and new.endswith('__'):
+                continue      # (a name with two leading and two trailing underscores is public by Python's rules: another kind of name)
             if new not in used and new not in RESERVED and new != n:
                 yield {n: new}
 
